@@ -27,6 +27,8 @@ Findings recorded by the statements below (the model reproduces the code; each h
 -/
 import HypnoModel.Model.Wall
 import HypnoModel.Lemmas.Wall
+import HypnoModel.Model.Extend
+import HypnoModel.Lemmas.Extend
 import HypnoModel.Props.C20
 import Mathlib.Tactic.NormNum
 
@@ -525,5 +527,174 @@ example : findIntersections (1 / 1000000000000000) (1 / 100000000000000) C20.squ
 example : (2 : ℚ) = 3 / 2 + 1 / 2 * (5 / 2 - 3 / 2) := by norm_num
 
 end examples
+
+/-! ### temporaryExtend -/
+/-! `PsiContour.temporaryExtend` (hypnotoad/core/equilibrium.py) adds temporary guard points in front of / behind a contour whose
+`startInd` / `endInd` mark the wall points.  Model: Model/Extend.lean; the index adjustments after `prepend` / `append` are the
+GENERATED tables `Gen.Contour.afterPrepend` / `afterAppend` (Gen/Contour.lean).  Helper lemmas: Lemmas/Extend.lean.
+Result: `endInd` keeps its point for every valid python index (negative or not), `startInd` keeps its point iff it is
+non-negative or nothing is appended (`append` does not adjust a negative `startInd`: `temporaryExtend_neg_start_moves`; the code
+only ever sets a non-negative `startInd`). -/
+
+section extend
+variable {P : Type}
+
+/-- the bookkeeping statements read from the source: this is the statement that breaks when the source changes them -/
+theorem extend_tables : Gen.Contour.afterPrepend = [⟨.startInd, .ge, 0, 1⟩, ⟨.endInd, .ge, 0, 1⟩] ∧
+    Gen.Contour.afterAppend = [⟨.endInd, .lt, 0, -1⟩] := by decide
+
+theorem prependStep_pts (c : Contour P) (p : P) : (c.prependStep p).pts = p :: c.pts := by rw [prependStep_eq]
+theorem appendStep_pts (c : Contour P) (p : P) : (c.appendStep p).pts = c.pts ++ [p] := by rw [appendStep_eq]
+
+/-- the accepted lower candidates end up in front (the last one tried first), the accepted upper ones behind -/
+theorem temporaryExtend_pts (c : Contour P) (inRange : P → Bool) (lows ups : List P) :
+    (c.temporaryExtend inRange lows ups).pts = (accepted inRange lows).reverse ++ c.pts ++ accepted inRange ups := by
+  rw [temporaryExtend_eq]
+
+theorem temporaryExtend_length (c : Contour P) (inRange : P → Bool) (lows ups : List P) :
+    (c.temporaryExtend inRange lows ups).pts.length =
+      (accepted inRange lows).length + c.pts.length + (accepted inRange ups).length := by
+  rw [temporaryExtend_pts]; simp only [List.length_append, List.length_reverse]
+
+/-- `endInd` refers to the same POSITION of the original contour, shifted by the number of points put in front — for any valid
+    python index, negative or not -/
+theorem temporaryExtend_end_position (c : Contour P) (inRange : P → Bool) (lows ups : List P) {k : Nat}
+    (h : PyIdx c.pts.length c.endInd k) :
+    PyIdx (c.temporaryExtend inRange lows ups).pts.length (c.temporaryExtend inRange lows ups).endInd
+      (k + (accepted inRange lows).length) := by
+  rw [temporaryExtend_length, temporaryExtend_eq]
+  exact h.extend _ _
+
+/-- … hence to the same point -/
+theorem temporaryExtend_keeps_end (c : Contour P) (inRange : P → Bool) (lows ups : List P) {k : Nat}
+    (h : PyIdx c.pts.length c.endInd k) :
+    pyGet (c.temporaryExtend inRange lows ups).pts (c.temporaryExtend inRange lows ups).endInd = pyGet c.pts c.endInd := by
+  rw [pyGet_of_idx (temporaryExtend_end_position c inRange lows ups h), pyGet_of_idx h, temporaryExtend_pts,
+    ← List.length_reverse (as := accepted inRange lows), getElem?_extend _ _ _ _ h.1]
+
+/-- a non-negative `startInd` refers to the same position, shifted -/
+theorem temporaryExtend_start_position (c : Contour P) (inRange : P → Bool) (lows ups : List P)
+    (h0 : 0 ≤ c.startInd) (h1 : c.startInd < c.pts.length) :
+    PyIdx (c.temporaryExtend inRange lows ups).pts.length (c.temporaryExtend inRange lows ups).startInd
+      (c.startInd.toNat + (accepted inRange lows).length) := by
+  rw [temporaryExtend_length, temporaryExtend_eq]
+  exact PyIdx.extend_nonneg _ _ h0 ⟨by omega, Or.inl (by omega)⟩
+
+/-- … hence to the same point (the code only ever uses a non-negative `startInd`) -/
+theorem temporaryExtend_keeps_start (c : Contour P) (inRange : P → Bool) (lows ups : List P)
+    (h0 : 0 ≤ c.startInd) (h1 : c.startInd < c.pts.length) :
+    pyGet (c.temporaryExtend inRange lows ups).pts (c.temporaryExtend inRange lows ups).startInd = pyGet c.pts c.startInd := by
+  have hk : PyIdx c.pts.length c.startInd c.startInd.toNat := ⟨by omega, Or.inl (by omega)⟩
+  rw [pyGet_of_idx (temporaryExtend_start_position c inRange lows ups h0 h1), pyGet_of_idx hk, temporaryExtend_pts,
+    ← List.length_reverse (as := accepted inRange lows), getElem?_extend _ _ _ _ hk.1]
+
+/-- a NEGATIVE `startInd` is not adjusted by `append`: it then refers to the position `#accepted ups` places further on -/
+theorem temporaryExtend_neg_start_position (c : Contour P) (inRange : P → Bool) (lows ups : List P) {k : Nat}
+    (h0 : c.startInd < 0) (h : PyIdx c.pts.length c.startInd k) :
+    PyIdx (c.temporaryExtend inRange lows ups).pts.length (c.temporaryExtend inRange lows ups).startInd
+      (k + (accepted inRange lows).length + (accepted inRange ups).length) := by
+  rw [temporaryExtend_length, temporaryExtend_eq]
+  exact h.extend_neg_unadjusted _ _ h0
+
+/-- **the hypothesis `0 ≤ c.startInd` of `temporaryExtend_keeps_start` is necessary**: contour 10, 20, 30 with startInd = -3 (→ 10),
+    one accepted upper candidate 40: the contour is 10, 20, 30, 40, startInd is still -3 and refers to 20 -/
+theorem temporaryExtend_neg_start_moves :
+    let c : Contour Nat := ⟨[10, 20, 30], -3, -1⟩
+    let c' := c.temporaryExtend (fun _ => true) [] [40]
+    pyGet c.pts c.startInd = some 10 ∧ c'.pts = [10, 20, 30, 40] ∧ c'.startInd = -3 ∧ pyGet c'.pts c'.startInd = some 20 ∧
+      pyGet c'.pts c'.endInd = pyGet c.pts c.endInd := by
+  decide
+
+/-- nothing is added when the first candidate of each loop is outside the R–Z range (or there is none): the contour is unchanged -/
+theorem temporaryExtend_out_of_range (c : Contour P) (inRange : P → Bool) (lows ups : List P)
+    (hl : ∀ l ∈ lows.head?, inRange l = false) (hu : ∀ u ∈ ups.head?, inRange u = false) :
+    c.temporaryExtend inRange lows ups = c := by
+  unfold Contour.temporaryExtend
+  rw [accepted_nil_of_head inRange lows hl, accepted_nil_of_head inRange ups hu]
+  rfl
+
+/-- the domain between the two targets is not inverted: the positions after the extension are the old ones shifted by the same
+    amount, so start ≤ end is kept (positions are unique: `PyIdx.unique`) -/
+theorem temporaryExtend_order (c : Contour P) (inRange : P → Bool) (lows ups : List P) {ks ke : Nat}
+    (hs : PyIdx c.pts.length c.startInd ks) (he : PyIdx c.pts.length c.endInd ke) (hle : ks ≤ ke) (h0 : 0 ≤ c.startInd) :
+    ∃ ks' ke', PyIdx (c.temporaryExtend inRange lows ups).pts.length (c.temporaryExtend inRange lows ups).startInd ks' ∧
+      PyIdx (c.temporaryExtend inRange lows ups).pts.length (c.temporaryExtend inRange lows ups).endInd ke' ∧ ks' ≤ ke' ∧
+      ks' = ks + (accepted inRange lows).length ∧ ke' = ke + (accepted inRange lows).length := by
+  refine ⟨ks + (accepted inRange lows).length, ke + (accepted inRange lows).length, ?_,
+    temporaryExtend_end_position c inRange lows ups he, by omega, rfl, rfl⟩
+  rw [temporaryExtend_length, temporaryExtend_eq]
+  exact PyIdx.extend_nonneg _ _ h0 hs
+
+/-- the same, for whatever positions the new indices refer to -/
+theorem temporaryExtend_order' (c : Contour P) (inRange : P → Bool) (lows ups : List P) {ks ke ks' ke' : Nat}
+    (hs : PyIdx c.pts.length c.startInd ks) (he : PyIdx c.pts.length c.endInd ke) (hle : ks ≤ ke) (h0 : 0 ≤ c.startInd)
+    (hs' : PyIdx (c.temporaryExtend inRange lows ups).pts.length (c.temporaryExtend inRange lows ups).startInd ks')
+    (he' : PyIdx (c.temporaryExtend inRange lows ups).pts.length (c.temporaryExtend inRange lows ups).endInd ke') : ks' ≤ ke' := by
+  obtain ⟨a, b, ha, hb, hab, _, _⟩ := temporaryExtend_order c inRange lows ups hs he hle h0
+  rw [hs'.unique ha, he'.unique hb]; exact hab
+
+/-- **seeded regression** "appending does not move any existing point, so endInd stays": contour 10, 20, 30 with endInd = -1 (→ 30);
+    after appending 40 without the adjustment endInd = -1 refers to 40; the real step makes it -2 (→ 30) -/
+theorem appendStep_without_adjust_moves_end :
+    let c : Contour Nat := ⟨[10, 20, 30], 0, -1⟩
+    pyGet c.pts c.endInd = some 30 ∧ pyGet (c.appendStepNoAdjust 40).pts (c.appendStepNoAdjust 40).endInd = some 40 ∧
+      pyGet (c.appendStep 40).pts (c.appendStep 40).endInd = some 30 := by
+  decide
+
+/-- generally: without the adjustment a negative `endInd` refers to the NEXT position after an `append` -/
+theorem appendStep_without_adjust_next_position (c : Contour P) (p : P) {k : Nat} (h0 : c.endInd < 0)
+    (h : PyIdx c.pts.length c.endInd k) :
+    PyIdx (c.appendStepNoAdjust p).pts.length (c.appendStepNoAdjust p).endInd (k + 1) :=
+  appendStepNoAdjust_next c p h0 h
+
+/-- the arithmetic core of the same statement -/
+theorem pyIdx_neg_after_append {n : Nat} {i : Int} {k : Nat} (h0 : i < 0) (h : PyIdx n i k) : PyIdx (n + 1) i (k + 1) := by
+  obtain ⟨h1, h2 | h2⟩ := h
+  · omega
+  · exact ⟨by omega, Or.inr (by push_cast; omega)⟩
+
+/-- … whereas the real `appendStep` keeps the position, for any valid index -/
+theorem appendStep_end_position (c : Contour P) (p : P) {k : Nat} (h : PyIdx c.pts.length c.endInd k) :
+    PyIdx (c.appendStep p).pts.length (c.appendStep p).endInd k := by
+  rw [appendStep_eq]
+  obtain ⟨h1, h2 | h2⟩ := h
+  · simp only [List.length_append, List.length_cons, List.length_nil]
+    rw [if_neg (by omega)]; exact ⟨by omega, Or.inl h2⟩
+  · simp only [List.length_append, List.length_cons, List.length_nil]
+    rw [if_pos (by omega)]; exact ⟨by omega, Or.inr (by push_cast; omega)⟩
+
+section extendExamples
+/-- contour 10 … 40, startInd = 1 (→ 20), endInd = -2 (→ 30); R–Z range: `< 100`; lower candidates 9, 8 accepted, 200 rejected (7 never
+    tried); upper candidates 41, 42 accepted, 300 rejected -/
+private def cE : Contour Nat := ⟨[10, 20, 30, 40], 1, -2⟩
+private def inR : Nat → Bool := fun x => decide (x < 100)
+
+example : (cE.temporaryExtend inR [9, 8, 200, 7] [41, 42, 300, 43]).pts = [8, 9, 10, 20, 30, 40, 41, 42] ∧
+    (cE.temporaryExtend inR [9, 8, 200, 7] [41, 42, 300, 43]).startInd = 3 ∧
+    (cE.temporaryExtend inR [9, 8, 200, 7] [41, 42, 300, 43]).endInd = -4 ∧
+    accepted inR [9, 8, 200, 7] = [9, 8] ∧ accepted inR [41, 42, 300, 43] = [41, 42] := by decide
+-- theorems 4 and 5 instantiated (hypotheses satisfiable), and their conclusions evaluated
+example : pyGet (cE.temporaryExtend inR [9, 8, 200, 7] [41, 42, 300, 43]).pts
+    (cE.temporaryExtend inR [9, 8, 200, 7] [41, 42, 300, 43]).endInd = pyGet cE.pts cE.endInd :=
+  temporaryExtend_keeps_end cE inR _ _ (k := 2) ⟨by decide, Or.inr (by decide)⟩
+example : PyIdx (cE.temporaryExtend inR [9, 8, 200, 7] [41, 42, 300, 43]).pts.length
+    (cE.temporaryExtend inR [9, 8, 200, 7] [41, 42, 300, 43]).endInd (2 + 2) :=
+  temporaryExtend_end_position cE inR _ _ (k := 2) ⟨by decide, Or.inr (by decide)⟩
+example : pyGet (cE.temporaryExtend inR [9, 8, 200, 7] [41, 42, 300, 43]).pts
+    (cE.temporaryExtend inR [9, 8, 200, 7] [41, 42, 300, 43]).startInd = pyGet cE.pts cE.startInd :=
+  temporaryExtend_keeps_start cE inR _ _ (by decide) (by decide)
+example : pyGet (cE.temporaryExtend inR [9, 8, 200, 7] [41, 42, 300, 43]).pts
+    (cE.temporaryExtend inR [9, 8, 200, 7] [41, 42, 300, 43]).endInd = some 30 ∧
+    pyGet (cE.temporaryExtend inR [9, 8, 200, 7] [41, 42, 300, 43]).pts
+    (cE.temporaryExtend inR [9, 8, 200, 7] [41, 42, 300, 43]).startInd = some 20 := by decide
+example :=
+  temporaryExtend_order cE inR [9, 8, 200, 7] [41, 42, 300, 43] (ks := 1) (ke := 2) ⟨by decide, Or.inl (by decide)⟩
+    ⟨by decide, Or.inr (by decide)⟩ (by decide) (by decide)
+-- out of range at once: unchanged
+example : cE.temporaryExtend inR [200, 9] [] = cE :=
+  temporaryExtend_out_of_range cE inR _ _ (by decide) (by decide)
+end extendExamples
+
+end extend
 
 end HypnoModel.Props.C11
